@@ -475,8 +475,9 @@ def run_czar(exe, case, scratch, timeout=30.0):
             T.all_do(lambda i: ["pos 1 0 0 %s" % float(row[i][0] + row[i][1]).hex(),
                                 "eforce 1 0 0 %s" % float(row[i][2]).hex(), "step"], timeout)
             if t in case["gather_at"]:
+                before = [parse_shared(r) for r in T.all_do(["dumpshared a"], timeout)]
                 out = T.all_do(["postrun", "dumpshared a"], timeout)
-                res.append((t, [parse_shared(r) for r in out], [[x for x in r if x.startswith("POSTRUN")] for r in out]))
+                res.append((t, [parse_shared(r) for r in out], [[x for x in r if x.startswith("POSTRUN")] for r in out], before))
         stats = T.all_do(["repstat"], timeout)
     return res, stats
 
